@@ -44,7 +44,7 @@ def model_checking(ctx):
     grid = [dict(SMALL), dict(SMALL, MaxLines=3, RTCap=1, BufCap=0)]
     if not q:
         grid += [dict(SMALL, MaxLines=3, RTCap=2, BufCap=2), dict(SMALL, MaxLines=4, RTCap=2, BufCap=1), dict(SMALL, MaxLines=3, MaxCrashes=2),
-                 dict(SMALL, MaxLines=4, RTCap=3, BufCap=2), dict(SMALL, MaxLines=4, RTCap=1, BufCap=0, MaxCrashes=2)]
+                 dict(SMALL, MaxLines=4, RTCap=3, BufCap=2), dict(SMALL, MaxLines=3, RTCap=1, BufCap=0, MaxCrashes=2)]
     for c in grid:
         mc(ctx, c, INVS)
     # the protocol without read-ahead satisfies the ideal too
